@@ -5,6 +5,7 @@
 -/
 import Nuts.Model.Tx
 import NutsProofs.Lemmas.ReopenAll
+import NutsProofs.Facts
 namespace NutsProofs.C13
 open Nuts Nuts.Model Nuts.Model.DB
 
@@ -140,5 +141,10 @@ theorem C13_commit_applies_operations_in_issue_order (s : State) (t : List Rec) 
     (ht : AnyTx s.opt.seg t) (hok : (commit s t).2 = .ok ()) :
     sv (commit s t).1 = t.foldl (fun v r => (stepSV v r true).1) (sv s) ∧ NoPanic (sv s) t true :=
   commit_sv s t h ht hok
+
+/-- **regenerated tie.** `buildIdxes` (the loop over the transaction's entries in issue order) and the appliers it
+calls are, on this run, the source lines the model's `buildIdxes` / `applyOther` were written from. -/
+theorem C13_appliers_regenerated : NutsGen.F.applierStmts = NutsProofs.Facts.expectedApplierStmts :=
+  NutsProofs.Facts.appliers_ok
 
 end NutsProofs.C13
